@@ -60,10 +60,52 @@ def lib_filter_kind():
     return kinds[0] if len(kinds) == 1 else "MatchUnknown"
 
 
+def parser_resets():
+    """Which parts of the Parser object's state Parser.parse() re-initialises before it calls yacc: (lineno, eems_v2, errors).
+    Only unconditional top-level assignments of the initial values count; `self.<helper>()` calls are looked into one level."""
+    from mpilot.parser import parser as pmod
+    cls = ast.parse(textwrap.dedent(inspect.getsource(pmod.Parser))).body[0]
+    methods = {f.name: f for f in cls.body if isinstance(f, ast.FunctionDef)}
+    if "parse" not in methods:
+        return (False, False, False)
+
+    def calls_yacc(st):
+        return any(isinstance(n, ast.Call) and _is_attr(n.func, "parser", "parse") for n in ast.walk(st))
+
+    def flat(body, depth):
+        for st in body:
+            if (depth == 0 and isinstance(st, ast.Expr) and isinstance(st.value, ast.Call) and isinstance(st.value.func, ast.Attribute)
+                    and isinstance(st.value.func.value, ast.Name) and st.value.func.value.id == "self" and not st.value.args
+                    and not st.value.keywords and st.value.func.attr in methods):
+                for x in flat(methods[st.value.func.attr].body, 1):
+                    yield x
+            else:
+                yield st
+    found = {"lineno": False, "eems_v2": False, "errors": False}
+    for st in flat(methods["parse"].body, 0):
+        if calls_yacc(st):
+            break
+        targets = st.targets if isinstance(st, ast.Assign) else []
+        for t in targets:
+            for sub, v in zip(t.elts, st.value.elts) if isinstance(t, ast.Tuple) and isinstance(st.value, ast.Tuple) and len(t.elts) == len(st.value.elts) else [(t, st.value)]:
+                if _is_attr(sub, "lexer", "lineno") and isinstance(v, ast.Constant) and v.value == 1 and type(v.value) is int:
+                    found["lineno"] = True
+                elif _is_attr(sub, "self", "eems_v2") and isinstance(v, ast.Constant) and v.value is False:
+                    found["eems_v2"] = True
+                elif _is_attr(sub, "self", "errors") and isinstance(v, ast.List) and not v.elts:
+                    found["errors"] = True
+    else:
+        return (False, False, False)       # parse() never calls yacc: not the code this fact is about
+    return (found["lineno"], found["eems_v2"], found["errors"])
+
+
 def generate(snap):
     out = ["(* GENERATED by drivers/gen_facts.py from the /repo snapshot -- do not edit *)",
            "From Coq Require Import String List Bool.", "From MP Require Import Model.Registry.",
            "Import ListNotations.", "Open Scope string_scope.", ""]
     out.append("(* Program.__init__: any(<test> for lib in libraries) *)")
     out.append("Definition lib_filter_kind : mkind := %s." % lib_filter_kind())
+    out.append("")
+    out.append("(* Parser.parse: the state of the Parser object re-initialised before yacc runs: (lexer.lineno = 1, eems_v2 = False, errors = []) *)")
+    out.append("Definition parser_resets : bool * bool * bool := (%s, %s, %s)." % tuple(cbool(x) for x in parser_resets()))
     return "\n".join(out) + "\n"
